@@ -25,6 +25,10 @@ def corpus():
         "lg %s - 0 0 0 %s ; HQ:%s G GR HQ:%s G GR HO G GR HO G GR HO G GR" % (h("info"), probes, h("warn"), h("a=xx")),
         "lg %s - 0 0 0 %s ; HU:%s HQ:%s HP:%s HO G GR HO G GR" % (h("debug, a = off"), probes, h("error"), h("a b=info"), h("b=trace,c=wrong")),
         "lg %s - 0 0 0 %s ; HO G GR HS:%s G GR HP:%s G GR" % (h("trace"), probes, h("off"), h("info/needle")),
+        # only the text filter changes between two specifications
+        "lg %s - 0 0 0 %s ; L:3:%s:~:%s HP:%s L:3:%s:~:%s L:3:%s:~:%s HP:%s L:3:%s:~:%s HP:%s L:3:%s:~:%s" % (
+            h("info"), probes, h("a"), h("hello world"), h("info/needle"), h("a"), h("hello world"), h("a"), h("needle in haystack"),
+            h("info/hello"), h("a"), h("needle in haystack"), h("info"), h("a"), h("xyz")),
     ]
 
 
@@ -45,6 +49,8 @@ def oracle(body, model, impl):
         k = op.split(":")[0]
         if k in ("HS", "HP", "HU", "HQ", "HO") and m != i:
             return "fail result-of-reconfiguration %s model=%s impl=%s" % (op[:40], m, i)
+        if k == "L" and m != i:
+            return "fail filtering-does-not-follow-the-active-specification %s model=%s impl=%s" % (op[:40], m, i)
         if k == "GR" and m != i:
             return "fail filtering-does-not-follow-the-active-specification model=%s impl=%s" % (m, i)
         if k == "G" and int(i[1:]) < int(m[1:]):
